@@ -1,0 +1,133 @@
+//go:build verif
+
+// Contracts for the deductive checker in /verif (comment-only; compiled only with -tags verif).
+// C16: configuration persistence is crash-safe and complete; status replay is exact.
+//
+// File-system model (ghost): fs[path] is the state of the file at path --
+//   0 missing, 1 complete (the version from before this save), 2 complete (the version written by this save),
+//   3 exists but only partially written.
+// os.Remove/os.Rename/os.Link are atomic: a process kill happens before or after them, never inside, so
+// the states between two calls are exactly the crash points.  viper.WriteConfigAs is NOT atomic: while it
+// runs (and if it fails) its target may be partial, every other path is untouched.
+// viper state (ghost): vset[k] / vval[k] = key k has been Set / to which value.
+
+package dastard
+
+//@ ghost var fs strint
+//@ ghost var vset strset
+//@ ghost var vval strany
+
+//@ ufunc lower(s string) string
+//@ ufunc yamlname(s string) bool
+//@ ufunc cfgfile() string
+
+//@ extern func strings.ToLower
+//@   pure
+//@   ensures result == lower(s)
+// The temporary name differs from the config name and its backup name when the config file is a *.yaml file
+// (setupViper creates and reads config.yaml; another extension found first on the search path is not covered).
+//@ extern func strings.Replace
+//@   pure
+//@   ensures yamlname(s) ==> result != s && result != s + ".bak"
+//@ extern func github.com/spf13/viper.ConfigFileUsed
+//@   pure
+//@   ensures result == cfgfile() && yamlname(result)
+//@ extern func github.com/spf13/viper.Set
+//@   modifies vset, vval
+//@   ensures vset == upd(old(vset), key, true) && vval == upd(old(vval), key, value)
+//@ extern func github.com/spf13/viper.WriteConfigAs
+//@   modifies fs
+//@   ensures fs == upd(old(fs), filename, fs[filename]) && (result == nil ==> fs[filename] == 2) && (result != nil ==> fs[filename] == 3 || fs[filename] == old(fs[filename]))
+//@ extern func os.Remove
+//@   modifies fs
+//@   ensures (result == nil ==> fs == upd(old(fs), name, 0)) && (result != nil ==> fs == old(fs))
+//@ extern func os.Rename
+//@   modifies fs
+//@   ensures (result == nil ==> old(fs[oldpath]) != 0 && fs == upd(upd(old(fs), newpath, old(fs[oldpath])), oldpath, ite(oldpath == newpath, old(fs[oldpath]), 0))) && (result != nil ==> fs == old(fs))
+//@ extern func os.Link
+//@   modifies fs
+//@   ensures (result == nil ==> old(fs[oldname]) != 0 && old(fs[newname]) == 0 && fs == upd(old(fs), newname, old(fs[oldname]))) && (result != nil ==> fs == old(fs))
+//@ extern func os.IsNotExist
+//@   pure
+//@ extern func log.Println
+//@   pure
+//@ extern func log.Printf
+//@   pure
+//@ extern func time.Now
+//@   pure
+//@ extern func (time.Time).Format
+//@   pure
+
+// Intact(path): the file a start-up would read exists and is a complete old or complete new version.
+//@ pred Intact(p string) := fs[p] == 1 || fs[p] == 2
+
+// Marker(k): the three bookkeeping keys saveState adds to the cache (publish never sends them: nopublishMessages).
+//@ pred Marker(k string) := k == "___1" || k == "___2" || k == "CURRENTTIME"
+// Persistent(k): topic k is not on the no-save list.
+//@ pred Persistent(k string) := !dom(nosaveMessages, lower(k))
+
+//@ func saveState
+//@   props C16
+//@   requires lastMessages != nil && Intact(cfgfile())
+//@   ensures crashsafe: Intact(cfgfile())
+//@   cut before Remove: crashpoint: Intact(mainname)
+//@   cut before Rename: crashpoint: Intact(mainname)
+//@   cut before Link: crashpoint: Intact(mainname)
+//@   cut before WriteConfigAs: complete: forall k string :: {dom(lastMessages, k)} dom(lastMessages, k) && Persistent(k) ==> vset[k] && vval[k] == lastMessages[k]
+//@   ensures cachekept: forall k string :: {dom(lastMessages, k)} !Marker(k) ==> (dom(lastMessages, k) <==> old(dom(lastMessages, k))) && (dom(lastMessages, k) ==> lastMessages[k] == old(lastMessages[k]))
+//@   ensures nodrop: forall k string :: {old(dom(lastMessages, k))} old(dom(lastMessages, k)) ==> dom(lastMessages, k)
+//@   modifies fs, vset, vval, lastMessages[*]
+//@   loop 1
+//@     invariant unchanged(fs) && lastMessages != nil
+//@     invariant cachekept: forall k string :: {dom(lastMessages, k)} !Marker(k) ==> (dom(lastMessages, k) <==> old(dom(lastMessages, k))) && (dom(lastMessages, k) ==> lastMessages[k] == old(lastMessages[k]))
+//@     invariant nodrop: forall k string :: {old(dom(lastMessages, k))} old(dom(lastMessages, k)) ==> dom(lastMessages, k)
+//@     invariant done: forall k string :: {visited(1, k)} visited(1, k) && Persistent(k) ==> vset[k] && vval[k] == lastMessages[k]
+
+// ---- status replay ----
+// Ghost log of the status socket: glast[t] = payload of the most recent message published with topic t,
+// gcount[t] = how many messages with topic t have been published.
+//@ ghost var glast strstr
+//@ ghost var gcount strint
+
+// publish is the only writer of the status socket.  Trusted: it hands [tag, message] to zmq SendMessage
+// (variadic interface arguments, cgo), retries and panics if the socket keeps failing.
+//@ func publish
+//@   trusted
+//@   modifies glast, gcount
+//@   ensures dom(nopublishMessages, update.tag) ==> glast == old(glast) && gcount == old(gcount)
+//@   ensures !dom(nopublishMessages, update.tag) ==> glast == upd(old(glast), update.tag, strof(message)) && gcount == upd(old(gcount), update.tag, old(gcount[update.tag]) + 1)
+
+// JSON text is never empty.
+//@ extern func encoding/json.Marshal
+//@   ensures result1 == nil ==> result0 != nil && len(result0) > 0 && allocated(result0)
+//@   ensures result1 != nil ==> result0 == nil
+
+// Cache invariants of the updater loop.
+//   CachePayload: the remembered text of a topic is the payload most recently published for it
+//   CacheKeys:    object cache and text cache hold the same topics (apart from saveState's marker keys)
+//   CacheAll:     every topic published in this run (other than NEWDASTARD) is remembered
+//@ pred CachePayload(strs map[string]string) := !dom(strs, "NEWDASTARD") && (forall t string :: {dom(strs, t)} dom(strs, t) && !dom(nopublishMessages, t) ==> strs[t] == glast[t])
+// NoPub: the marker keys are on the never-publish list (package-level table, never written).
+//@ pred NoPub() := dom(nopublishMessages, "___1") && dom(nopublishMessages, "___2") && dom(nopublishMessages, "CURRENTTIME")
+//@ pred CacheKeys(objs map[string]interface{}, strs map[string]string) := forall t string :: {dom(strs, t)} {dom(objs, t)} !Marker(t) ==> (dom(objs, t) <==> dom(strs, t))
+//@ pred CacheAll(strs map[string]string) := forall t string :: {gcount[t]} gcount[t] > old(gcount[t]) && t != "NEWDASTARD" ==> dom(strs, t)
+
+//@ func RunClientUpdater
+//@   props C16
+//@   nosafety
+//@   requires Intact(cfgfile()) && NoPub()
+//@   modifies glast, gcount, fs, vset, vval
+//@   loop 1
+//@     invariant lastMessages != nil && lastMessageStrings != nil && lastMessages != lastMessageStrings && fresh(lastMessages) && fresh(lastMessageStrings) && Intact(cfgfile()) && NoPub()
+//@     invariant payload: CachePayload(lastMessageStrings)
+//@     invariant keys: CacheKeys(lastMessages, lastMessageStrings)
+//@     invariant all: CacheAll(lastMessageStrings)
+//@     invariant mono: forall t string :: {gcount[t]} gcount[t] >= old(gcount[t])
+//@   loop 2
+//@     invariant lastMessages != nil && lastMessageStrings != nil && fresh(lastMessages) && fresh(lastMessageStrings) && Intact(cfgfile()) && NoPub()
+//@     invariant payload: CachePayload(lastMessageStrings)
+//@     invariant keys: CacheKeys(lastMessages, lastMessageStrings)
+//@     invariant all: CacheAll(lastMessageStrings)
+//@     invariant mono: forall t string :: {gcount[t]} gcount[t] >= old(gcount[t])
+//@     invariant recent: forall t string :: {glast[t]} glast[t] == pre(glast[t])
+//@     invariant sentonce: forall t string :: {gcount[t]} gcount[t] == pre(gcount[t]) + ite(visited(2, t) && !dom(nopublishMessages, t), 1, 0)
